@@ -66,6 +66,25 @@ theorem expr_roundtrip_memo (e : Ex) (h : e.WF 8) (k : List Tok) (hk : Stop 8 k)
   | nil => rfl
   | cons x xs => exact absurd (h3 x (by rw [hd]; exact List.mem_cons_self)) (by simp)
 
+/-- **member-access chains**: `parse_dot_ops` (the parser of assignment targets and of the operand of
+    `++`/`--`) on a well-formed chain returns the left-nested tree; the dangling-dot branch does not fire -/
+theorem chain_roundtrip (e : Ex) (hc : e.isChain = true) (h : e.WF 0) (k : List Tok) (hk : StopD k) :
+    ∃ f, runP Γ Δ f (.ref nDotOps) (e.toks ++ k) = (.ok k e.tree, []) :=
+  pd1_of_pd2 e ((invEx e).chain h hc).1 k hk
+
+/-- **argument lists**: `parse_separated_list_w_context(parse_expr, Comma)` before a closing `)` / `]` returns exactly
+    the trees of the arguments (none for the empty list) and takes NO recovery branch: no diagnostic, nothing skipped -/
+theorem args_roundtrip (as : Args) (h : as.WF 8) (c : Tok) (k : List Tok)
+    (hc : c.kind = Kind.CBracket ∨ c.kind = Kind.CSqrBracket) :
+    ∃ f, runP Γ Δ f (sepListCtx (.ref nExpr) nExprRec) (as.toks ++ c :: k) = (.ok (c :: k) (Tree.list as.trees), []) :=
+  ((invArgs as).expr h c k hc).2
+
+/-- the same for the items of a set literal (`parse_primary` items) -/
+theorem items_roundtrip (as : Args) (h : as.WF 0) (c : Tok) (k : List Tok)
+    (hc : c.kind = Kind.CBracket ∨ c.kind = Kind.CSqrBracket) :
+    ∃ f, runP Γ Δ f (sepListCtx (.ref nPrimary) nPrimaryRec) (as.toks ++ c :: k) = (.ok (c :: k) (Tree.list as.trees), []) :=
+  ((invArgs as).prim h c k hc).2
+
 /-! ## non-vacuity: `a + b * (c - d) < x or y` is well formed, and so is a left chain -/
 
 private def tk (k : Kind) (v : String) (c : Nat) : Tok := ⟨k, v, ⟨⟨0, c⟩, ⟨0, c + 1⟩⟩⟩
